@@ -1,7 +1,9 @@
 package main
 
 import (
+	"bytes"
 	"encoding/json"
+	"os/exec"
 	"regexp"
 	"fmt"
 	"os"
@@ -83,6 +85,19 @@ type checkOpts struct {
 	onlyFunc string
 	seed     int
 	verbose  bool
+	worker   int    // > 0: worker process handling the items listed in itemsFile
+	items    string // comma-separated item keys (worker)
+	outFile  string // worker result file
+	jobs     int
+}
+
+// workerOut is what a worker process hands back to the coordinating process.
+type workerOut struct {
+	Reports  []*FuncReport
+	Results  []*OblResult
+	Covers   map[string]string
+	Problems []string
+	Warnings []string
 }
 
 func cmdList() int {
@@ -128,6 +143,18 @@ func cmdCheck(args []string) int {
 		case "--func":
 			i++
 			opts.onlyFunc = args[i]
+		case "--worker":
+			i++
+			opts.worker, _ = strconv.Atoi(args[i])
+		case "--items":
+			i++
+			opts.items = args[i]
+		case "--out":
+			i++
+			opts.outFile = args[i]
+		case "--jobs":
+			i++
+			opts.jobs, _ = strconv.Atoi(args[i])
 		case "-v":
 			opts.verbose = true
 		default:
@@ -143,14 +170,32 @@ func cmdCheck(args []string) int {
 	id := opts.id
 	work := filepath.Join(outDir(), "work")
 	os.MkdirAll(work, 0o755)
-	dir := prepDir(work, id)
+	var dir string
+	if opts.worker > 0 {
+		dir = filepath.Join(work, id, fmt.Sprintf("w%d", opts.worker))
+		os.MkdirAll(dir, 0o755)
+	} else {
+		dir = prepDir(work, id)
+	}
+	if opts.jobs == 0 {
+		opts.jobs = 6
+		if j := os.Getenv("GOCV_JOBS"); j != "" {
+			opts.jobs, _ = strconv.Atoi(j)
+		}
+	}
 	eng, err := LoadEngine(dir, []string{"./..."})
 	if err == nil {
 		err = eng.RegisterAxioms()
 	}
 	replayDir := filepath.Join(outDir(), "replays", id)
-	os.RemoveAll(replayDir)
-	os.MkdirAll(replayDir, 0o755)
+	if opts.worker == 0 {
+		os.RemoveAll(replayDir)
+		os.MkdirAll(replayDir, 0o755)
+	}
+	if err != nil && opts.worker > 0 {
+		fmt.Fprintln(os.Stderr, err)
+		return 2
+	}
 	if err != nil {
 		// the tree does not build: every obligation of the property is undischarged
 		p := filepath.Join(replayDir, "load-failure.txt")
@@ -168,12 +213,53 @@ func cmdCheck(args []string) int {
 	var reports []*FuncReport
 	var obls []*Obligation
 	var problems []string
+	// the items (functions under contract and lemmas) of this property
+	var items []string
 	for _, k := range eng.cs.Order {
 		fc := eng.cs.Funcs[k]
 		if fc.Extern || !hasProp(fc.Props, id) {
 			continue
 		}
 		if opts.onlyFunc != "" && fc.Key != opts.onlyFunc {
+			continue
+		}
+		items = append(items, "f:"+k)
+	}
+	for _, lm := range eng.cs.Lemmas {
+		if !hasProp(lm.Props, id) || (opts.onlyFunc != "" && lm.Name != opts.onlyFunc) {
+			continue
+		}
+		items = append(items, "l:"+lm.Name)
+	}
+	mine := map[string]bool{}
+	if opts.worker > 0 {
+		for _, it := range strings.Split(opts.items, "\x1f") {
+			mine[it] = true
+		}
+	}
+	if opts.worker == 0 && opts.jobs > 1 && len(items) >= 6 {
+		wo, perr := runWorkers(id, opts, items)
+		if perr != nil {
+			problems = append(problems, "parallel run failed, falling back to one process: "+perr.Error())
+		} else {
+			nl := 0
+			for _, it := range items {
+				if strings.HasPrefix(it, "l:") {
+					nl++
+				}
+			}
+			return finishCheck(id, opts, eng, t0, replayDir, wo.Reports, wo.Results, wo.Covers, wo.Problems, nl)
+		}
+	}
+	for _, k := range eng.cs.Order {
+		fc := eng.cs.Funcs[k]
+		if fc.Extern || !hasProp(fc.Props, id) {
+			continue
+		}
+		if opts.onlyFunc != "" && fc.Key != opts.onlyFunc {
+			continue
+		}
+		if opts.worker > 0 && !mine["f:"+k] {
 			continue
 		}
 		fn := eng.findFunc(fc.Pkg, fc.Key)
@@ -211,6 +297,9 @@ func cmdCheck(args []string) int {
 			continue
 		}
 		if opts.onlyFunc != "" && lm.Name != opts.onlyFunc {
+			continue
+		}
+		if opts.worker > 0 && !mine["l:"+lm.Name] {
 			continue
 		}
 		lo, err := eng.LemmaObligations(lm)
@@ -257,6 +346,132 @@ func cmdCheck(args []string) int {
 			results = append(results, &OblResult{Name: "vacuity:" + rep.Fn, Fn: rep.Fn, Class: "vacuity", Status: "undecided", Instances: 1,
 				Raw: "no return path of the function is satisfiable under its preconditions (contradictory requires or dead code): " + st, Solvers: map[string]int{}})
 		}
+	}
+	if opts.worker > 0 {
+		for _, rep := range reports {
+			rep.NObl = len(rep.Obligations)
+			rep.Obligations = nil
+			rep.Covers = nil
+			if rep.fc != nil {
+				rep.IsTrusted = rep.fc.Trusted
+				rep.OnlyPat = rep.fc.Opts["only"]
+			}
+		}
+		data, _ := json.Marshal(&workerOut{Reports: reports, Results: results, Covers: covers, Problems: problems, Warnings: sortedKeys(eng.warnings)})
+		if err := os.WriteFile(opts.outFile, data, 0o644); err != nil {
+			fmt.Fprintln(os.Stderr, err)
+			return 2
+		}
+		return 0
+	}
+	for _, rep := range reports {
+		rep.NObl = len(rep.Obligations)
+		if rep.fc != nil {
+			rep.IsTrusted = rep.fc.Trusted
+			rep.OnlyPat = rep.fc.Opts["only"]
+		}
+	}
+	return finishCheck(id, opts, eng, t0, replayDir, reports, results, covers, problems, nLemmas)
+}
+
+// runWorkers verifies the items in parallel worker processes (each loads the repository itself).
+func runWorkers(id string, opts checkOpts, items []string) (*workerOut, error) {
+	n := opts.jobs
+	if n > len(items) {
+		n = len(items)
+	}
+	groups := make([][]string, n)
+	for i, it := range items {
+		groups[i%n] = append(groups[i%n], it)
+	}
+	exe, err := os.Executable()
+	if err != nil {
+		return nil, err
+	}
+	type res struct {
+		out *workerOut
+		err error
+	}
+	ch := make(chan res, n)
+	for w := 0; w < n; w++ {
+		go func(w int) {
+			outFile := filepath.Join(outDir(), "work", id, fmt.Sprintf("worker%d.json", w+1))
+			cmd := exec.Command(exe, "check", id, "--tier", opts.tier, "--worker", strconv.Itoa(w+1), "--items", strings.Join(groups[w], "\x1f"), "--out", outFile)
+			cmd.Env = os.Environ()
+			var stderr bytes.Buffer
+			cmd.Stderr = &stderr
+			if err := cmd.Run(); err != nil {
+				ch <- res{nil, fmt.Errorf("worker %d: %v: %s", w+1, err, firstLines(stderr.String(), 5))}
+				return
+			}
+			data, err := os.ReadFile(outFile)
+			if err != nil {
+				ch <- res{nil, err}
+				return
+			}
+			var wo workerOut
+			if err := json.Unmarshal(data, &wo); err != nil {
+				ch <- res{nil, err}
+				return
+			}
+			ch <- res{&wo, nil}
+		}(w)
+	}
+	all := &workerOut{Covers: map[string]string{}}
+	var firstErr error
+	for w := 0; w < n; w++ {
+		r := <-ch
+		if r.err != nil {
+			if firstErr == nil {
+				firstErr = r.err
+			}
+			continue
+		}
+		all.Reports = append(all.Reports, r.out.Reports...)
+		all.Results = append(all.Results, r.out.Results...)
+		for k, v := range r.out.Covers {
+			all.Covers[k] = v
+		}
+		all.Problems = append(all.Problems, r.out.Problems...)
+		all.Warnings = append(all.Warnings, r.out.Warnings...)
+	}
+	if firstErr != nil {
+		return nil, firstErr
+	}
+	return all, nil
+}
+
+// finishCheck: verdicts, known findings, replays, evidence.
+func finishCheck(id string, opts checkOpts, eng *Engine, t0 time.Time, replayDir string, reports []*FuncReport, results []*OblResult, covers map[string]string, problems []string, nLemmas int) int {
+	// re-attach function objects (workers cannot send them)
+	for _, rep := range reports {
+		if rep.fnObj == nil && rep.Pkg != "" {
+			for _, k := range eng.cs.Order {
+				fc := eng.cs.Funcs[k]
+				if !fc.Extern && fc.Pkg == rep.Pkg && fc.Key == rep.Fn {
+					rep.fc = fc
+					rep.fnObj = eng.findFunc(fc.Pkg, fc.Key)
+				}
+			}
+		}
+	}
+	if meta := propMeta[id]; meta.Include != "" || meta.Exclude != "" {
+		var inc, exc *regexp.Regexp
+		if meta.Include != "" {
+			inc = regexp.MustCompile(meta.Include)
+		}
+		if meta.Exclude != "" {
+			exc = regexp.MustCompile(meta.Exclude)
+		}
+		var kept []*OblResult
+		for _, r := range results {
+			full := r.Fn + "::" + r.Name
+			if (inc != nil && !inc.MatchString(full)) || (exc != nil && exc.MatchString(full)) {
+				continue
+			}
+			kept = append(kept, r)
+		}
+		results = kept
 	}
 	sortResults(results)
 	// verdicts
@@ -362,12 +577,12 @@ func writeEvidence(id string, opts checkOpts, eng *Engine, reports []*FuncReport
 	uncontracted := map[string]bool{}
 	for _, rep := range reports {
 		m := map[string]interface{}{"function": rep.Pkg + "::" + rep.Fn, "mode": rep.Mode, "paths": rep.Paths, "returns": rep.Returns,
-			"obligation_instances": len(rep.Obligations)}
-		if rep.fc != nil && rep.fc.Trusted {
+			"obligation_instances": rep.NObl}
+		if rep.IsTrusted {
 			m["trusted"] = true
 		}
-		if rep.fc != nil && rep.fc.Opts["only"] != "" {
-			m["claimed_obligations_only"] = rep.fc.Opts["only"]
+		if rep.OnlyPat != "" {
+			m["claimed_obligations_only"] = rep.OnlyPat
 			m["obligation_instances_not_claimed"] = rep.Skipped
 		}
 		if covers != nil {
@@ -455,6 +670,10 @@ type propInfo struct {
 	Explanation string
 	Assumptions []string
 	NotProved   []string
+	// Include / Exclude: regular expressions over "Fn::obligation-name" selecting which obligations of
+	// the functions tagged with this property belong to this property's claim.
+	Include string
+	Exclude string
 }
 
 var propMeta = map[string]propInfo{}
